@@ -54,6 +54,7 @@ static int handshake(SSL *ssl, bool client)
 }
 int SSL_connect(SSL *ssl) { return handshake(ssl, true); }
 int SSL_accept(SSL *ssl) { return handshake(ssl, false); }
+static bool g_ssl_captured;      /* OpenSSL holds bytes of a call it refused */
 static int ssl_io(SSL *ssl, const void *buf, size_t len, bool write)
 {
     g_io_calls++; g_io_was_write = write;
@@ -62,6 +63,15 @@ static int ssl_io(SSL *ssl, const void *buf, size_t len, bool write)
     int en;
     nd_ssl_outcome(&g_io_rc, &g_io_err, &en, true, len);
     g_last_rc = g_io_rc; g_last_err = g_io_err; g_io_errno = en; errno = en;
+    /* OPENSSL contract, pending write record (SSL_write(3), ssl3_write_pending): when SSL_write reports WANT_WRITE/WANT_READ it may
+       already have taken up to one record (16 KB) of the caller's bytes, encrypted them, and will put them on the wire on the next
+       SSL_write - whatever that call is given (with ACCEPT_MOVING_WRITE_BUFFER it only checks that the new length is not smaller) */
+    if (write && g_io_rc <= 0 && (g_io_err == SSL_ERROR_WANT_WRITE || g_io_err == SSL_ERROR_WANT_READ)) {
+	g_ssl_captured = nd_bool();
+#ifdef KF_BTLS_REFUSED_BYTES_CAPTURED
+	ASSUME(!g_ssl_captured);      /* known finding C02-btls-refused-send-captured assumed away */
+#endif
+    }
     return g_io_rc;
 }
 int SSL_write(SSL *ssl, const void *buf, int num) { return ssl_io(ssl, buf, (size_t)num, true); }
@@ -218,6 +228,9 @@ int main(void)
 #endif
 		if (want) {
 		    CHECK(rc == -1 && e == EAGAIN && st == conn_state_ready, "C02,C05: OpenSSL back-pressure is reported as EAGAIN");
+#ifdef OP_SEND
+		    CHECK(!g_ssl_captured, "C02,C03: bytes offered in a send that is refused with EAGAIN never appear in the stream - but OpenSSL has captured up to one record of them and emits it with the next SSL_write, whatever the application offers then");
+#endif
 		    int dir =
 #ifdef OP_SEND
 			XCM_SO_SENDABLE;
